@@ -197,3 +197,12 @@ Theorem C04_reject_text_after_substvar : forall nm w c x, forallb subc nm = true
   parse (ch 36 :: ch 123 :: nm ++ ch 125 :: w ++ c :: x) = Err.
 Proof. exact reject_text_after_substvar. Qed.
 Print Assumptions C04_reject_text_after_substvar.
+
+(* an unknown operator made of a known one and a third operator character - ">==", "<<<", "<=>", ">>=" ... - is refused, whatever
+   follows (repair b3668d3 of the r13 finding: the third character used to be left to the version number) *)
+Theorem C04_three_character_operators : forall o c rest,
+  In o [s ">="; s "<="; s "<<"; s ">>"; s "="] -> In c ["="%char; "<"%char; ">"%char] -> parse_operator (o ++ c :: rest) = Err.
+Proof.
+  intros o c rest Ho Hc.
+  destruct Ho as [<-|[<-|[<-|[<-|[<-|[]]]]]]; destruct Hc as [<-|[<-|[<-|[]]]]; reflexivity.
+Qed.
